@@ -71,6 +71,7 @@ class E2Explorer:
                    "divergences": 0, "retries": 0, "max_steps": 0, "by_bound": {}, "sample": None, "verdicts": {}}
         states = set()
         outcomes = set()
+        expect_of = {}
         # iterative bounding: level b holds all deviation tuples of length b
         level = [((), None)]
         for b in range(0, bound + 1):
@@ -96,6 +97,7 @@ class E2Explorer:
                     except StopIteration:
                         exhausted = True
                         break
+                    expect_of[d] = expect
                     pending.add(self.pool.submit(_run, scn, d, self.bindir, self.scratch, expect))
             fill()
             while pending:
@@ -122,7 +124,19 @@ class E2Explorer:
                         res_sum["sample"] = {"devs": [list(d) for d in devs], "roots": res["roots"],
                                              "schedule": [[s["lid"], s["kind"], s["label"]] for s in res["steps"]][:400],
                                              "trace": res["trace"]}
-                    for sig, detail in oracle(scn, res):
+                    viols = oracle(scn, res)
+                    if viols:
+                        # every failing schedule is executed a second time and must reproduce identically
+                        _, res2 = _run(scn, devs, self.bindir, self.scratch, expect_of.get(devs))
+                        sigs2 = sorted(json.dumps(s, sort_keys=True, default=str) for s, _ in oracle(scn, res2)) \
+                            if res2["verdict"] != "sched-error" and not res2.get("divergence") else None
+                        sigs1 = sorted(json.dumps(s, sort_keys=True, default=str) for s, _ in viols)
+                        res_sum["confirmations"] = res_sum.get("confirmations", 0) + 1
+                        if sigs1 != sigs2:
+                            res_sum["sched_errors"].append((devs, "violation not reproducible on re-execution: %s vs %s"
+                                                            % (sigs1[:2], (sigs2 or ["<divergence>"])[:2])))
+                            viols = []
+                    for sig, detail in viols:
                         res_sum["violations"].append((devs, sig, detail))
                     if b < bound:
                         nxt.extend(children(res, devs, alt_filter))
